@@ -998,6 +998,15 @@ func (fr *frame) builtin(name string, c *ssa.Call, args []Val) Val {
 				fr.store(Val{K: KPtr, S: fmt.Sprintf("%s[%d]", base, a0.Off+a0.Len+i)}, fr.load(fmt.Sprintf("%s[%d]", a1.S, a1.Off+i), elemT), nil)
 			}
 			return Val{K: KSlice, S: base, Len: a0.Len + a1.Len, Off: a0.Off}
+		case a1.K == KSlice && a0.Len >= 0:
+			// many or unknown many elements appended at a known position: only
+			// the indices from there on are affected
+			fr.storeFrom(base, a0.Off+a0.Len, fr.load(a1.S+"[*]", elemT))
+			l := -1
+			if a1.Len >= 0 {
+				l = a0.Len + a1.Len
+			}
+			return Val{K: KSlice, S: base, Len: l, Off: a0.Off}
 		case a1.K == KSlice:
 			n := a1.Len
 			if n < 0 || n > 64 {
